@@ -15,6 +15,17 @@ macro_rules! by_type {
 		}
 	};
 }
+/// element types whose size exceeds their alignment (only meaningful for the reference-returning reads)
+macro_rules! by_struct {
+	($t:expr, $T:ident => $body:expr) => {
+		match $t {
+			"dd" => { type $T = pelite::image::IMAGE_DATA_DIRECTORY; $body },
+			"sh" => { type $T = pelite::image::IMAGE_SECTION_HEADER; $body },
+			"b16" => { type $T = [u8; 16]; $body },
+			_ => "bad-op".to_string(),
+		}
+	};
+}
 
 fn er(e: pelite::Error) -> String { format!("err {}", errname(e)) }
 
@@ -24,6 +35,18 @@ pub fn dispatch(st: &mut State, fam: &str, rest: &str) -> Option<String> {
 	let is_va = fam.starts_with("deref");
 	let base = &fam[5..];
 	let k = a[0];
+	if a.len() >= 3 && matches!(a[1], "dd" | "sh" | "b16") {
+		// struct element types: `derva`/`deref` (no value printed) and `derva_slice`/`deref_slice`
+		let (t, x) = (a[1], num(a[2]));
+		return Some(match (base, a.len()) {
+			("", 3) => if is_va { with_specific!(st, k, g, p => by_struct!(t, T => match p.deref::<T>((x as VaT).into()) { Ok(r) => format!("ok {}", tref(g, r, std::mem::size_of::<T>())), Err(e) => er(e) })) }
+				else { with_any!(st, k, g, p => by_struct!(t, T => match p.derva::<T>(x as u32) { Ok(r) => format!("ok {}", tref(g, r, std::mem::size_of::<T>())), Err(e) => er(e) })) },
+			("_slice", 4) => { let len = num(a[3]) as usize;
+				if is_va { with_specific!(st, k, g, p => by_struct!(t, T => match p.deref_slice::<T>((x as VaT).into(), len) { Ok(r) => format!("ok {}", tref(g, r.as_ptr(), r.len() * std::mem::size_of::<T>())), Err(e) => er(e) })) }
+				else { with_any!(st, k, g, p => by_struct!(t, T => match p.derva_slice::<T>(x as u32, len) { Ok(r) => format!("ok {}", tref(g, r.as_ptr(), r.len() * std::mem::size_of::<T>())), Err(e) => er(e) })) } },
+			_ => "bad-op".to_string(),
+		});
+	}
 	Some(match (base, a.len()) {
 		("", 3) => { let (t, x) = (a[1], num(a[2]));
 			if is_va { with_specific!(st, k, g, p => by_type!(t, T => match p.deref::<T>((x as VaT).into()) { Ok(r) => format!("ok {} val={}", tref(g, r, std::mem::size_of::<T>()), *r as u64), Err(e) => er(e) })) }
